@@ -54,7 +54,7 @@ impl ProfibusPhy for HPhy {
         F: FnOnce(&mut [u8]) -> (usize, R),
     {
         assert!(!self.busy, "harness PHY: transmit while transmission in progress");
-        let mut buf = [0u8; 256];
+        let mut buf = [0xA5u8; 256];
         let (n, r) = f(&mut buf);
         if n > 0 {
             assert!(self.sent.is_none(), "harness PHY: second transmission in one poll");
